@@ -64,6 +64,8 @@ type Obligation struct {
 }
 
 type VCGen struct {
+	lockState *State // state right after the (single) monitor lock acquisition of this function
+	lockCount int
 	beforeApplied map[string]bool // "name.k" of the before clauses that attached to at least one site
 	eng      *Engine
 	fn       *ssa.Function
